@@ -280,6 +280,7 @@ theorem natToDec_noCRLF (n : Nat) : NoCRLF (natToDec n) := by
 
 /-! ## start lines -/
 
+set_option linter.unusedSimpArgs false in
 theorem span_append {p : UInt8 → Bool} (a : Bytes) (b : UInt8) (c : Bytes)
     (ha : ∀ x ∈ a, p x = true) (hb : p b = false) :
     (a ++ b :: c).takeWhile p = a ∧ (a ++ b :: c).dropWhile p = b :: c := by
